@@ -269,8 +269,16 @@ class TickFinder(importlib.abc.MetaPathFinder):
         return spec
 
 
-def _no_itimer(*a, **k):
-    raise RuntimeError('esrsim: signal.setitimer is not virtualised; ESR is not expected to call it')
+def _v_setitimer(which, seconds, interval=0.0):
+    """signal.setitimer(ITIMER_REAL, s) is virtualised exactly like alarm(s) (a refactoring of time_limit to float
+    seconds must not change what the checks see); other timers go to the real call."""
+    if which != signal.ITIMER_REAL:
+        return _real_setitimer(which, seconds, interval)
+    seconds = float(seconds)
+    if seconds < 0:
+        raise ValueError('setitimer: negative')
+    CLOCK.alarm(1 if seconds > 0 else 0)
+    return (0.0, 0.0)
 
 
 def install(names):
@@ -279,4 +287,4 @@ def install(names):
     if names:
         sys.meta_path.insert(0, TickFinder(names))
     signal.alarm = CLOCK.alarm
-    signal.setitimer = _no_itimer
+    signal.setitimer = _v_setitimer
